@@ -1,11 +1,14 @@
 #!/bin/bash
-# Runs the thorough command of every check once (seed from VERIF_SEED, default 1); evidence goes to a scratch
-# directory so that the committed quick-tier evidence files are not touched.  Meant for `vp run -- bash tools/thorough.sh`.
+# Runs the thorough command of every check (or of the checks named on the command line) once (seed from
+# VERIF_SEED, default 1); evidence goes to a scratch directory so that the committed quick-tier evidence
+# files are not touched.  Meant for `vp run -- bash tools/thorough.sh [C07 C17 ...]`.
 export GOFLAGS=-mod=mod GOPROXY=off GOSUMDB=off GOTOOLCHAIN=local
 go build -o bin/check ./cmd/check || exit 2
 ev=$(mktemp -d)
 rc_all=0
-for p in C01 C02 C03 C04 C05 C06 C07 C08 C09 C10 C11 C12 C13 C14 C15 C16 C17 C18 C19; do
+list="$@"
+[ -z "$list" ] && list="C01 C02 C03 C04 C05 C06 C07 C08 C09 C10 C11 C12 C13 C14 C15 C16 C17 C18 C19"
+for p in $list; do
   out=$(VERIF_EVIDENCE_DIR=$ev ./bin/check -p $p -tier thorough 2>&1); rc=$?
   echo "$p exit=$rc $(echo "$out" | tail -1)"
   [ $rc -ne 0 ] && { rc_all=1; echo "$out" | grep -A4 '^VIOLATION\|^INCONCLUSIVE' | cut -c1-600 | head -40; }
